@@ -5,6 +5,17 @@ were repaired in /repo after the workspace recorded them as open)."""
 import json, sys, os
 
 FIXED = {
+    "C35:numeric-reference-zero": "2f8cb4b",
+    "C35:quote-entity": "353fdd3",
+    "C35:html-block-closing-pre-tag": "fc33cd5",
+    "C35:html-block-1-prefix-match": "d386880",
+    "C35:list-start-after-quote-marker-interrupting-paragraph": "72045f7",
+    "C35:empty-item-with-space-interrupts-paragraph": "146bd86",
+    "C35:email-autolink-after-slash-or-question": "b587770",
+    "C35:link-title-without-separator": "2999d8b",
+    "C35:del-in-link-destination": "ee5c0d8",
+    "C36:start-of-line-after-escaped-newline": "2248890",
+    "C36:marker-only-line-is-thematic-break": "0b755b4",
     "C38:nul-short-matches-long-only": "dd77677",
     "C23:multi-starstar-duplicates": "7810ac0",
     "C23:hidden-dot-by-later-wildcard": "431e6a5",
